@@ -1,13 +1,13 @@
 SPECIFICATION Spec
-CONSTANTS MaxLinks = 2
- Lens = {1,2,4}
+CONSTANTS MaxLinks = 3
+ Lens = {1,4}
  Chunk = 4
  Read = 2
- Shapes = {1,3,6,10,14,15}
+ Shapes = {1,14}
  Damage = 0
  Clamp = TRUE
  Trim = TRUE
- SearchFrom = "dataoffset"
+ SearchFrom = "consumed"
 INVARIANT OpenSucceeds
 INVARIANT LinkTableIsTheTruth
 CHECK_DEADLOCK FALSE
